@@ -31,6 +31,7 @@ RDM_GROUPINGS = ['index', 'rid', 'grp', 'rname', 'ralt', 'rbig']
 RD = ('rid', 'grp', 'rname', 'ralt', 'rbig')
 PAT_GROUPINGS = ['index', 'cid', 'cat', 'name', 'pgrp', 'big']
 PD = ('cid', 'name', 'cat', 'pgrp', 'big')
+ZERO_PAIRS = ((0, 1), (2, 3))
 
 
 def _configs(tier):
@@ -66,6 +67,17 @@ def _configs(tier):
                 out.append(('bootstrap_sample_pattern', 2, 4, None, pdn, cont, src))
                 if pdn in ('index', 'cid'):
                     out.append(('bootstrap_sample', 2, 4, 'index', pdn, cont, src))
+    # genuine zero dissimilarities
+    for cont in ['list', 'ndarray']:
+        for pdn in ('index', 'cid', 'cat'):
+            out.append(('bootstrap_sample_pattern', 2, 4, None, pdn, cont, 'zeros'))
+        out.append(('bootstrap_sample', 1, 4, 'index', 'index', cont, 'zeros'))
+        out.append(('bootstrap_sample', 2, 4, 'rid', 'cid', cont, 'zeros'))
+    # an object re-ordered in place (non-increasing 'index'), grouped by other descriptors
+    for cont in ['list', 'ndarray']:
+        for pdn in ('cid', 'name', 'cat'):
+            out.append(('bootstrap_sample_pattern', 2, 4, None, pdn, cont, 'reordered'))
+        out.append(('bootstrap_sample', 2, 4, 'rid', 'cid', cont, 'reordered'))
     # the same object before and after an in-place append
     for cont in ['list', 'ndarray']:
         for rd in RDM_GROUPINGS:
@@ -145,6 +157,19 @@ def _execute(cfg, env):
             else:
                 B.bootstrap_sample_pattern(rdms, pattern_descriptor=pdn)
         rdms.append(selfdesc.build(rids[-1:], cids, container=cont, rdm_desc=RD, pat_desc=PD))
+    elif src == 'zeros':
+        # genuine zero dissimilarities (two conditions with identical patterns in every RDM; a categorical
+        # model prediction): values, not missing entries
+        rdms = selfdesc.build(rids, cids, container=cont, rdm_desc=RD, pat_desc=PD, zero_pairs=ZERO_PAIRS)
+        model = selfdesc.build([9], cids, container=cont, pat_desc=PD, zero_pairs=ZERO_PAIRS)
+    elif src == 'reordered':
+        # an object whose conditions were re-ordered in place: its library-managed 'index' descriptor no
+        # longer increases with position; the model holds the same conditions in the same (new) order
+        base = list(range(n_cond))
+        perm = [2, 0, 3, 1, 4, 5][:n_cond] if n_cond >= 4 else list(range(n_cond))[::-1]
+        rdms = selfdesc.build(rids, base, container=cont, rdm_desc=RD, pat_desc=PD)
+        rdms.reorder(perm)
+        model = selfdesc.build([9], [base[q] for q in perm], container=cont, pat_desc=PD)
     elif src == 'subset':
         full = list(range(n_cond + 2))
         rdms = selfdesc.build(rids, full, container=cont, rdm_desc=RD, pat_desc=PD).subset_pattern('cid', cids)
@@ -238,7 +263,7 @@ def _judge(cfg, obs, ctx, case):
     # 3. every entry is the source value of its own labels; NaN iff two copies of one condition;
     #    all descriptor values travel with their item
     for kind, msg in selfdesc.verify(sample, rdm_desc=RD,
-                                     pat_desc=PD):
+                                     pat_desc=PD, zero_pairs=ZERO_PAIRS if src == 'zeros' else ()):
         ctx.fail(sigp + '|' + kind, case, msg)
     if not obs['source_unchanged']:
         ctx.fail(sigp + '|source-modified', case, 'the resampled object was changed by the draw')
@@ -249,7 +274,7 @@ def _judge(cfg, obs, ctx, case):
         _, pc = selfdesc.read_ids(pred)
         if pc != cids:
             ctx.fail(sigp + '|prediction-order', case, 'prediction conditions %r, sample conditions %r' % (pc, cids))
-        for kind, msg in selfdesc.verify(pred):
+        for kind, msg in selfdesc.verify(pred, zero_pairs=ZERO_PAIRS if src == 'zeros' else ()):
             ctx.fail(sigp + '|prediction-' + kind, case, msg)
     ctx.outcome((tuple(rids), tuple(cids)))
 
